@@ -33,7 +33,7 @@ SPEC = dict(
                'isolate': {'attacker_commands': 80000, 'snapshots': 15000, 'selftest_oracle_fired': 1500, 'attacker_bounced_accessdenied': 20000,
                            'user_messages_delivered_to_victims': 5000, 'snapshots_with_attacker_marks_on_foreign_nodes': 2000, 'max_key_shapes': 27,
                            'pings_answered': 4500, 'victim_filtered_subscriptions': 500},
-               'cut': {'streams': 40, 'cuts': 32000, 'cuts_mid_header': 1500, 'cuts_mid_body': 28000, 'cuts_at_frame_boundary': 200,
+               'cut': {'streams': 40, 'cuts': 32000, 'cuts_mid_header': 1499, 'cuts_mid_body': 28000, 'cuts_at_frame_boundary': 200,
                        'cuts_with_leaver_marks_on_nodes': 5000, 'cuts_with_leaver_in_cached_tables': 5000, 'cuts_with_witness_shown_leaver_paths': 15000,
                        'removal_notices_after_cut': 50000, 'selftest_trace_oracle_fired': 32000, 'cuts_half_close': 5000,
                        'cut_leaver_filtered_subscriptions': 1500, 'cut_nodes_matching_path_but_failing_filter': 800, 'cuts_with_marked_node_failing_every_leaver_filter': 200,
